@@ -51,6 +51,36 @@
 #define GQSEL_userid verif_stub_get_from_outpacketq(userid
 #define get_from_outpacketq(a) GQSEL_##a)
 #endif
+#ifdef H_NET
+/* network-facing functions around the dispatcher (tunnel_dns, forward_query, tunnel_bind, handle_ns/a_request,
+ * handle_full_packet, tunnel_tun): calls between them are redirected to recorders carrying the callee's contract;
+ * each real body is reachable under the name verif_real_* */
+#define RDSEL_int verif_real_read_dns(int
+#define RDSEL_dns_fd verif_stub_read_dns(dns_fd
+#define read_dns(a, b, c, d) RDSEL_##a, b, c, d)
+#define HNSEL_int verif_real_handle_null_request(int
+#define HNSEL_tun_fd verif_stub_handle_null_request(tun_fd
+#define handle_null_request(a, b, c, d, e) HNSEL_##a, b, c, d, e)
+#define NSSEL_int verif_real_handle_ns_request(int
+#define NSSEL_dns_fd verif_stub_handle_ns_request(dns_fd
+#define handle_ns_request(a, b, c) NSSEL_##a, b, c)
+#define ARSEL_int verif_real_handle_a_request(int
+#define ARSEL_dns_fd verif_stub_handle_a_request(dns_fd
+#define handle_a_request(a, b, c) ARSEL_##a, b, c)
+#define FQSEL_int verif_real_forward_query(int
+#define FQSEL_bind_fd verif_stub_forward_query(bind_fd
+#define forward_query(a, b) FQSEL_##a, b)
+#define recvfrom verif_recvfrom
+#define uncompress verif_uncompress
+#define compress2 verif_compress2
+#define inet_addr verif_inet_addr
+struct query; struct dnsfd;
+static int verif_stub_read_dns(int dns_fd, struct dnsfd *dns_fds, int tun_fd, struct query *q);
+static void verif_stub_handle_null_request(int tun_fd, int dns_fd, struct dnsfd *dns_fds, struct query *q, int domain_len);
+static void verif_stub_handle_ns_request(int dns_fd, struct query *q, int topdomain_offset);
+static void verif_stub_handle_a_request(int dns_fd, struct query *q, int fakeip);
+static void verif_stub_forward_query(int bind_fd, struct query *q);
+#endif
 #define strchr verif_strchr
 #define main iodined_main
 #define time verif_time
@@ -149,7 +179,10 @@ int verif_snprintf(char *buf, size_t n, const char *fmt, ...)
  *     (over-approximation: also bytes outside the copied range);
  * everything else: bounds asserted, destination range arbitrary, one ghost byte exact. */
 #ifdef VERIF_SHRUNK_TU
-struct tun_user users[1];
+#ifndef VERIF_NSLOTS
+#define VERIF_NSLOTS 1
+#endif
+struct tun_user users[VERIF_NSLOTS];
 #define slot users[0]
 #else
 struct tun_user slot;
@@ -161,7 +194,7 @@ static void verif_any_payload(struct packet *p)
 	np.len = p->len; np.sentlen = p->sentlen; np.offset = p->offset; np.seqno = p->seqno; np.fragment = p->fragment;
 	*p = np;
 }
-#define ANY_ROW(k) { char nd_[4096]; __CPROVER_array_replace(slot.dnscache_answer[k], nd_); }
+#define ANY_ROW(k) { char nd_[4096]; __CPROVER_array_replace(SL.dnscache_answer[k], nd_); }
 static void verif_addr_copy(struct sockaddr_storage *member, const void *src, size_t n)
 {
 	struct sockaddr_storage t;            /* arbitrary */
@@ -172,7 +205,7 @@ static void verif_addr_copy(struct sockaddr_storage *member, const void *src, si
 		tb[i] = i < n ? sb[i] : ob[i];
 	*member = t;
 }
-#define IN_MEMBER(off, m) ((off) >= offsetof(struct tun_user, m) && (off) < offsetof(struct tun_user, m) + sizeof(slot.m))
+#define IN_MEMBER(off, m) ((off) >= offsetof(struct tun_user, m) && (off) < offsetof(struct tun_user, m) + sizeof(users[0].m))
 void *verif_memcpy_t(void *dst, const void *src, size_t n)
 {
 	if (n == 0)
@@ -181,30 +214,38 @@ void *verif_memcpy_t(void *dst, const void *src, size_t n)
 	__CPROVER_assert(__CPROVER_w_ok(dst, n), "memcpy: destination writable for n bytes");
 	if (__CPROVER_same_object(dst, &slot)) {      /* (with the 1-slot table, &slot is the table itself) */
 		size_t off = __CPROVER_POINTER_OFFSET(dst);
+#if defined(VERIF_SHRUNK_TU) && VERIF_NSLOTS > 1
+		/* the session table is one object: slot index and offset inside the slot, both literals at every call site */
+		size_t sidx = off / sizeof(struct tun_user);
+		off = off % sizeof(struct tun_user);
+#define SL users[sidx]
+#else
+#define SL slot
+#endif
 		/* the offset is a literal at every call site, so exactly one of these is expanded */
-		if (off == offsetof(struct tun_user, q)) { __CPROVER_assert(n == sizeof(struct query), "whole-query copy"); slot.q = *(const struct query *)src; }
-		else if (off == offsetof(struct tun_user, q_sendrealsoon)) { __CPROVER_assert(n == sizeof(struct query), "whole-query copy"); slot.q_sendrealsoon = *(const struct query *)src; }
-		else if (off == offsetof(struct tun_user, dnscache_q[0])) { __CPROVER_assert(n == sizeof(struct query), "whole-query copy"); slot.dnscache_q[0] = *(const struct query *)src; }
-		else if (off == offsetof(struct tun_user, dnscache_q[1])) { __CPROVER_assert(n == sizeof(struct query), "whole-query copy"); slot.dnscache_q[1] = *(const struct query *)src; }
-		else if (off == offsetof(struct tun_user, dnscache_q[2])) { __CPROVER_assert(n == sizeof(struct query), "whole-query copy"); slot.dnscache_q[2] = *(const struct query *)src; }
-		else if (off == offsetof(struct tun_user, dnscache_q[3])) { __CPROVER_assert(n == sizeof(struct query), "whole-query copy"); slot.dnscache_q[3] = *(const struct query *)src; }
-		else if (off == offsetof(struct tun_user, host)) verif_addr_copy(&slot.host, src, n);
-		else if (off == offsetof(struct tun_user, q.from)) verif_addr_copy(&slot.q.from, src, n);
-		else if (off == offsetof(struct tun_user, q.from2)) verif_addr_copy(&slot.q.from2, src, n);
-		else if (off == offsetof(struct tun_user, q_sendrealsoon.from)) verif_addr_copy(&slot.q_sendrealsoon.from, src, n);
-		else if (off == offsetof(struct tun_user, q_sendrealsoon.from2)) verif_addr_copy(&slot.q_sendrealsoon.from2, src, n);
-		else if (IN_MEMBER(off, inpacket.data)) verif_any_payload(&slot.inpacket);
-		else if (IN_MEMBER(off, outpacket.data)) verif_any_payload(&slot.outpacket);
-		else if (IN_MEMBER(off, outpacketq[0].data)) verif_any_payload(&slot.outpacketq[0]);
-		else if (IN_MEMBER(off, outpacketq[1].data)) verif_any_payload(&slot.outpacketq[1]);
-		else if (IN_MEMBER(off, outpacketq[2].data)) verif_any_payload(&slot.outpacketq[2]);
-		else if (IN_MEMBER(off, outpacketq[3].data)) verif_any_payload(&slot.outpacketq[3]);
+		if (off == offsetof(struct tun_user, q)) { __CPROVER_assert(n == sizeof(struct query), "whole-query copy"); SL.q = *(const struct query *)src; }
+		else if (off == offsetof(struct tun_user, q_sendrealsoon)) { __CPROVER_assert(n == sizeof(struct query), "whole-query copy"); SL.q_sendrealsoon = *(const struct query *)src; }
+		else if (off == offsetof(struct tun_user, dnscache_q[0])) { __CPROVER_assert(n == sizeof(struct query), "whole-query copy"); SL.dnscache_q[0] = *(const struct query *)src; }
+		else if (off == offsetof(struct tun_user, dnscache_q[1])) { __CPROVER_assert(n == sizeof(struct query), "whole-query copy"); SL.dnscache_q[1] = *(const struct query *)src; }
+		else if (off == offsetof(struct tun_user, dnscache_q[2])) { __CPROVER_assert(n == sizeof(struct query), "whole-query copy"); SL.dnscache_q[2] = *(const struct query *)src; }
+		else if (off == offsetof(struct tun_user, dnscache_q[3])) { __CPROVER_assert(n == sizeof(struct query), "whole-query copy"); SL.dnscache_q[3] = *(const struct query *)src; }
+		else if (off == offsetof(struct tun_user, host)) verif_addr_copy(&SL.host, src, n);
+		else if (off == offsetof(struct tun_user, q.from)) verif_addr_copy(&SL.q.from, src, n);
+		else if (off == offsetof(struct tun_user, q.from2)) verif_addr_copy(&SL.q.from2, src, n);
+		else if (off == offsetof(struct tun_user, q_sendrealsoon.from)) verif_addr_copy(&SL.q_sendrealsoon.from, src, n);
+		else if (off == offsetof(struct tun_user, q_sendrealsoon.from2)) verif_addr_copy(&SL.q_sendrealsoon.from2, src, n);
+		else if (IN_MEMBER(off, inpacket.data)) verif_any_payload(&SL.inpacket);
+		else if (IN_MEMBER(off, outpacket.data)) verif_any_payload(&SL.outpacket);
+		else if (IN_MEMBER(off, outpacketq[0].data)) verif_any_payload(&SL.outpacketq[0]);
+		else if (IN_MEMBER(off, outpacketq[1].data)) verif_any_payload(&SL.outpacketq[1]);
+		else if (IN_MEMBER(off, outpacketq[2].data)) verif_any_payload(&SL.outpacketq[2]);
+		else if (IN_MEMBER(off, outpacketq[3].data)) verif_any_payload(&SL.outpacketq[3]);
 		else if (IN_MEMBER(off, dnscache_answer[0])) ANY_ROW(0)
 		else if (IN_MEMBER(off, dnscache_answer[1])) ANY_ROW(1)
 		else if (IN_MEMBER(off, dnscache_answer[2])) ANY_ROW(2)
 		else if (IN_MEMBER(off, dnscache_answer[3])) ANY_ROW(3)
-		else if (n <= 4 && IN_MEMBER(off, qmemping_cmc)) { size_t k, b = off - offsetof(struct tun_user, qmemping_cmc); for (k = 0; k < 4; k++) if (k < n) slot.qmemping_cmc[b + k] = ((const unsigned char *)src)[k]; }
-		else if (n <= 4 && IN_MEMBER(off, qmemdata_cmc)) { size_t k, b = off - offsetof(struct tun_user, qmemdata_cmc); for (k = 0; k < 4; k++) if (k < n) slot.qmemdata_cmc[b + k] = ((const unsigned char *)src)[k]; }
+		else if (n <= 4 && IN_MEMBER(off, qmemping_cmc)) { size_t k, b = off - offsetof(struct tun_user, qmemping_cmc); for (k = 0; k < 4; k++) if (k < n) SL.qmemping_cmc[b + k] = ((const unsigned char *)src)[k]; }
+		else if (n <= 4 && IN_MEMBER(off, qmemdata_cmc)) { size_t k, b = off - offsetof(struct tun_user, qmemdata_cmc); for (k = 0; k < 4; k++) if (k < n) SL.qmemdata_cmc[b + k] = ((const unsigned char *)src)[k]; }
 		else __CPROVER_assert(0, "memcpy into a session member that has no model");
 	} else if (n <= 16) {
 		size_t k;
@@ -268,6 +309,17 @@ size_t verif_strlen(const char *s) { size_t n = nondet_size_t(); __CPROVER_assum
 #endif
 
 
+#ifdef H_NET
+#undef read_dns
+#undef handle_null_request
+#undef handle_ns_request
+#undef handle_a_request
+#undef forward_query
+#undef recvfrom
+#undef uncompress
+#undef compress2
+#undef inet_addr
+#endif
 #undef strchr
 #ifdef STUB_GETQ
 #undef get_from_outpacketq
@@ -368,12 +420,12 @@ void user_switch_codec(int userid, const struct encoder *enc) { if (userid < 0 |
 void user_set_conn_type(int userid, enum connection c) { if (userid < 0 || userid >= 1) return; if (c < CONN_RAW_UDP || c >= CONN_MAX) return; users[userid].conn = c; }
 int write_tun(int fd, char *data, size_t len) { g_tun_writes++; return (int)len; }
 char *format_addr(struct sockaddr_storage *a, int l) { static char b[8]; return b; }
-static unsigned char g_sent[24]; static size_t g_sent_len; static const void *g_sent_to;
+static unsigned char g_sent[24]; static size_t g_sent_len; static const void *g_sent_to, *g_sent_buf; static int g_sent_fd; static socklen_t g_sent_tolen;
 ssize_t verif_sendto(int fd, const void *buf, size_t len, int flags, const struct sockaddr *to, socklen_t tolen)
 {
 	size_t k;
 	__CPROVER_assert(len == 0 || __CPROVER_r_ok(buf, len), "sendto: buffer readable for len bytes");
-	g_sendto++; g_sent_len = len; g_sent_to = to;
+	g_sendto++; g_sent_len = len; g_sent_to = to; g_sent_buf = buf; g_sent_fd = fd; g_sent_tolen = tolen;
 	for (k = 0; k < 24; k++) g_sent[k] = k < len ? ((const unsigned char *)buf)[k] : 0;
 	return (ssize_t)len;
 }
@@ -1071,6 +1123,226 @@ void h_raw_decode(void)
 	if (hdr && cmd != RAW_HDR_CMD_LOGIN && cmd != RAW_HDR_CMD_DATA && cmd != RAW_HDR_CMD_PING)
 		__CPROVER_assert(PRIV_UNCHANGED(s0) && slot.last_pkt == s0.last_pkt && g_sendto == 0 && g_full_calls == 0, "unknown raw commands are ignored");
 	__CPROVER_assert(SESSION_WF(slot), "the session invariant is preserved");
+	VERIF_REACH();
+}
+#endif
+
+/* ---- the network-facing functions around the dispatcher -------------------------------------------------------
+ * C17 (dispatch on the match result), C10 (NS / A auxiliary answers), C20 (forwarding), C04/C14/C01 (routing of
+ * delivered and tun packets).  Calls between these functions are recorders; each is proved on its real body. */
+#ifdef H_NET
+#ifndef STUB_CONTRACTS
+#error "net groups use the contract stubs of the stream helpers"
+#endif
+#define handle_null_request verif_real_handle_null_request
+#define handle_ns_request verif_real_handle_ns_request
+#define handle_a_request verif_real_handle_a_request
+#define forward_query verif_real_forward_query
+#define read_dns verif_real_read_dns
+#undef handle_full_packet
+#define handle_full_packet verif_real_handle_full_packet
+
+static int g_rd_calls, g_rd_ret, g_hn_calls, g_hn_dl, g_ns_calls, g_ns_off, g_a_calls, g_a_fake, g_fq_calls, g_fq_fd, g_qd_ret, g_qd_calls;
+static struct query *g_td_q;
+static unsigned short g_cp_type; static char g_cp_n0, g_cp_n1, g_cp_n2, g_cp_n3;      /* ghost copies: type and first characters of the decoded query */
+static char g_topdomain[8];
+static int verif_stub_read_dns(int dns_fd, struct dnsfd *dns_fds, int tun_fd, struct query *q)
+{
+	/* contract of read_dns: 0 = nothing to dispatch (error, raw frame, undecodable), else the length of the
+	 * NUL-terminated name of a decoded query */
+	struct query any;
+	g_rd_calls++; g_td_q = q;
+	*q = any;
+	q->name[sizeof(q->name) - 1] = 0;
+	g_cp_type = q->type; g_cp_n0 = q->name[0]; g_cp_n1 = q->name[1]; g_cp_n2 = q->name[2]; g_cp_n3 = q->name[3];
+	__CPROVER_assume(q->fromlen <= sizeof(struct sockaddr_storage));
+	__CPROVER_assume(g_rd_ret >= 0 && g_rd_ret <= 255);
+	if (g_rd_ret > 0) __CPROVER_assume(q->name[g_rd_ret] == 0 && q->name[0] != 0);
+	return g_rd_ret;
+}
+int query_datalen(const char *qname, const char *topdomain_)
+{
+	/* C17 group query_datalen: -1 = not under the tunnel domain, else the length of the data part */
+	__CPROVER_assert(g_td_q && qname == g_td_q->name && topdomain_ == g_topdomain, "query_datalen is asked about the received name and the configured tunnel domain");
+	g_qd_calls++;
+	__CPROVER_assume(g_qd_ret >= -1 && g_qd_ret <= 255);
+	return g_qd_ret;
+}
+static void verif_stub_handle_null_request(int tun_fd, int dns_fd, struct dnsfd *dns_fds, struct query *q, int domain_len) { g_hn_calls++; g_hn_dl = domain_len; __CPROVER_assert(q == g_td_q, "the received query is passed on"); }
+static void verif_stub_handle_ns_request(int dns_fd, struct query *q, int topdomain_offset) { g_ns_calls++; g_ns_off = topdomain_offset; __CPROVER_assert(q == g_td_q, "the received query is passed on"); }
+static void verif_stub_handle_a_request(int dns_fd, struct query *q, int fakeip) { g_a_calls++; g_a_fake = fakeip; __CPROVER_assert(q == g_td_q, "the received query is passed on"); }
+static void verif_stub_forward_query(int bind_fd, struct query *q) { g_fq_calls++; g_fq_fd = bind_fd; __CPROVER_assert(q == g_td_q, "the received query is passed on"); }
+
+#define LCX(c) (((c) >= 'A' && (c) <= 'Z') ? (c) + 32 : (c))
+void h_tunnel_dns(void)
+{
+	any_server_state();
+	int bind_fd = nondet_int();
+	g_rd_ret = nondet_int(); g_qd_ret = nondet_int();
+	g_rd_calls = g_hn_calls = g_ns_calls = g_a_calls = g_fq_calls = g_qd_calls = 0; g_td_q = 0;
+	topdomain = g_topdomain;
+	struct snap s0 = take_snap();
+	int r = tunnel_dns(7, 8, (struct dnsfd *)0, bind_fd);
+	int total = g_hn_calls + g_ns_calls + g_a_calls + g_fq_calls;
+	__CPROVER_assert(r == 0 && g_rd_calls == 1, "one datagram is read per call");
+	__CPROVER_assert(total <= 1, "a query is handled by at most one handler");
+	__CPROVER_assert(g_rd_ret > 0 || total == 0, "nothing is dispatched when no query was decoded");
+	__CPROVER_assert(PRIV_UNCHANGED(s0) && g_answers == 0 && g_sendto == 0 && g_tun_writes == 0, "tunnel_dns itself touches no session and emits nothing (only the handlers do)");
+	if (g_rd_ret > 0) {
+		/* C17: names outside the tunnel domain are never handled as tunnel traffic; they are forwarded iff -b was given */
+		__CPROVER_assert(g_qd_ret >= 0 || (g_hn_calls == 0 && g_ns_calls == 0 && g_a_calls == 0), "a name outside the tunnel domain reaches no tunnel handler");
+		__CPROVER_assert(g_qd_ret >= 0 || g_fq_calls == (bind_fd != 0), "a name outside the tunnel domain is forwarded exactly when forwarding is enabled");
+		__CPROVER_assert(g_qd_ret < 0 || g_fq_calls == 0, "a name under the tunnel domain is never forwarded");
+		__CPROVER_assert(!g_fq_calls || g_fq_fd == bind_fd, "forwarding uses the forwarding socket");
+		__CPROVER_assert(!g_hn_calls || g_hn_dl == g_qd_ret, "the tunnel handler gets exactly the data length reported by the matcher");
+		__CPROVER_assert(!g_ns_calls || g_ns_off == g_qd_ret, "the NS handler gets the offset of the matched domain");
+		/* C10: NS queries under the domain get the NS answer, A queries for ns./www. get an address record */
+		_Bool is_ns = g_qd_ret == 3 && g_cp_type == T_A && LCX(g_cp_n0) == 'n' && LCX(g_cp_n1) == 's' && g_cp_n2 == '.';
+		_Bool is_www = g_qd_ret == 4 && g_cp_type == T_A && LCX(g_cp_n0) == 'w' && LCX(g_cp_n1) == 'w' && LCX(g_cp_n2) == 'w' && g_cp_n3 == '.';
+		_Bool tunnel_type = g_cp_type == T_NULL || g_cp_type == T_PRIVATE || g_cp_type == T_CNAME || g_cp_type == T_A || g_cp_type == T_MX || g_cp_type == T_SRV || g_cp_type == T_TXT;
+		if (g_qd_ret >= 0) {
+			__CPROVER_assert(g_a_calls == (is_ns || is_www) && (!is_ns || g_a_fake == 0) && (!is_www || g_a_fake == 1), "A queries for ns.<domain> get the server address, for www.<domain> the placeholder, and no other query gets an address answer");
+			__CPROVER_assert(g_ns_calls == (g_cp_type == T_NS), "exactly the NS queries under the tunnel domain get the NS answer");
+			__CPROVER_assert(g_hn_calls == (tunnel_type && !is_ns && !is_www), "exactly the queries of a tunnel record type reach the request dispatcher");
+		}
+	}
+	VERIF_REACH();
+}
+
+
+/* ---- stubs of other translation units used by these functions (contracts proved in their own groups) ---------- */
+static int g_enc_calls, g_enc_ret, g_enc_qr; static const void *g_enc_q, *g_enc_data, *g_enc_buf; static size_t g_enc_datalen, g_enc_buflen;
+int dns_encode(char *buf, size_t buflen, struct query *q, qr_t qr, const char *data, size_t datalen)
+{
+	/* groups dnsenc_*: writes a message of the returned length (at most buflen) into buf, -1/0 if it does not fit */
+	__CPROVER_assert(__CPROVER_w_ok(buf, buflen), "dns_encode: output writable for buflen bytes");
+	g_enc_calls++; g_enc_q = q; g_enc_qr = qr; g_enc_data = data; g_enc_datalen = datalen; g_enc_buf = buf; g_enc_buflen = buflen;
+	__CPROVER_assume(g_enc_ret >= -1 && (size_t)(g_enc_ret < 0 ? 0 : g_enc_ret) <= buflen);
+	return g_enc_ret;
+}
+static const char *g_nsr_domain;
+int dns_encode_ns_response(char *buf, size_t buflen, struct query *q, char *topdomain_)
+{
+	__CPROVER_assert(__CPROVER_w_ok(buf, buflen), "dns_encode_ns_response: output writable for buflen bytes");
+	g_enc_calls++; g_enc_q = q; g_nsr_domain = topdomain_; g_enc_buf = buf; g_enc_buflen = buflen;
+	__CPROVER_assume(g_enc_ret >= -1 && (size_t)(g_enc_ret < 0 ? 0 : g_enc_ret) <= buflen);
+	return g_enc_ret;
+}
+int dns_encode_a_response(char *buf, size_t buflen, struct query *q)
+{
+	__CPROVER_assert(__CPROVER_w_ok(buf, buflen), "dns_encode_a_response: output writable for buflen bytes");
+	g_enc_calls++; g_enc_q = q; g_enc_buf = buf; g_enc_buflen = buflen;
+	__CPROVER_assume(g_enc_ret >= -1 && (size_t)(g_enc_ret < 0 ? 0 : g_enc_ret) <= buflen);
+	return g_enc_ret;
+}
+static int g_put_calls; static struct fw_query g_put;
+void fw_query_put(struct fw_query *fw_query) { g_put_calls++; g_put = *fw_query; }
+static int g_get_calls, g_get_hit; static unsigned short g_get_id; static struct fw_query g_fw_entry;
+void fw_query_get(unsigned short query_id, struct fw_query **fw_query)
+{
+	/* group fwq_get: the remembered entry with that id, or NULL */
+	g_get_calls++; g_get_id = query_id;
+	*fw_query = g_get_hit ? &g_fw_entry : (struct fw_query *)0;
+}
+static int g_gid_calls; static unsigned short g_gid_ret; static const void *g_gid_pkt; static size_t g_gid_len;
+unsigned short dns_get_id(char *packet, size_t packetlen) { g_gid_calls++; g_gid_pkt = packet; g_gid_len = packetlen; return g_gid_ret; }
+in_addr_t verif_inet_addr(const char *cp)
+{
+	/* only the literal "127.0.0.1" is ever passed on these paths */
+	__CPROVER_assert(cp[0] == '1' && cp[1] == '2' && cp[2] == '7' && cp[3] == '.' && cp[4] == '0' && cp[5] == '.' && cp[6] == '0' && cp[7] == '.' && cp[8] == '1' && cp[9] == 0, "inet_addr is called with the literal 127.0.0.1");
+	return htonl(0x7f000001u);
+}
+static int g_recv_ret; static const void *g_recv_buf;
+ssize_t verif_recvfrom(int fd, void *buf, size_t len, int flags, struct sockaddr *from, socklen_t *fromlen)
+{
+	__CPROVER_assert(__CPROVER_w_ok(buf, len), "recvfrom: buffer writable for len bytes");
+	__CPROVER_assume(g_recv_ret >= -1 && (size_t)(g_recv_ret < 0 ? 0 : g_recv_ret) <= len);
+	g_recv_buf = buf;
+	return g_recv_ret;
+}
+
+/* ---- forward_query (C20): remember the asker, re-encode the same question, send to the local DNS port ----------- */
+void h_forward_query(void)
+{
+	any_server_state();
+	int bind_fd = nondet_int();
+	bind_port = nondet_int();
+	__CPROVER_assume(bind_port >= 1 && bind_port <= 65535);
+	g_enc_ret = nondet_int(); g_enc_calls = g_put_calls = 0;
+	size_t nlen = nondet_size_t();
+	__CPROVER_assume(nlen <= 255 && g_q.name[nlen] == 0);
+	__CPROVER_assume(g_q.fromlen >= sizeof(struct sockaddr_in));      /* read_dns stores sizeof(struct sockaddr_storage) for every datagram */
+	struct sockaddr_storage from0 = g_q.from;
+	socklen_t fromlen0 = g_q.fromlen;
+	unsigned short id0 = g_q.id, type0 = g_q.type;
+	struct snap s0 = take_snap();
+	forward_query(bind_fd, &g_q);
+	__CPROVER_assert(g_enc_calls == 1 && g_enc_q == &g_q && g_enc_qr == QR_QUERY && g_enc_data == (const void *)g_q.name, "the query is re-encoded as a query from the received query object (same id, name and type: groups dnsenc_query)");
+	__CPROVER_assert(g_q.id == id0 && g_q.type == type0, "id and type of the query are not modified before re-encoding");
+	__CPROVER_assert(g_enc_ret >= 1 || (g_put_calls == 0 && g_sendto == 0), "nothing is remembered or sent when the query cannot be encoded");
+	if (g_enc_ret >= 1) {
+		__CPROVER_assert(g_put_calls == 1 && g_put.id == id0 && g_put.addrlen == (int)fromlen0, "the asker is remembered under the query's id");
+		__CPROVER_assert(!(g_m < fromlen0) || ((unsigned char *)&g_put.addr)[g_m] == ((unsigned char *)&from0)[g_m], "the remembered address is the address the query came from");
+		__CPROVER_assert(g_sendto == 1 && g_sent_fd == bind_fd && g_sent_buf == g_enc_buf && g_sent_len == (size_t)g_enc_ret, "exactly the encoded query is sent once on the forwarding socket");
+		__CPROVER_assert(g_sent_to == (const void *)&g_q.from && ((struct sockaddr_in *)&g_q.from)->sin_addr.s_addr == htonl(0x7f000001u) && ((struct sockaddr_in *)&g_q.from)->sin_port == htons((unsigned short)bind_port), "to the local DNS port 127.0.0.1:bind_port");
+		__CPROVER_assert(((struct sockaddr_in *)&g_q.from)->sin_family == AF_INET && g_sent_tolen >= sizeof(struct sockaddr_in), "the destination is an IPv4 socket address (the forwarding socket is an IPv4 socket), whatever family the query arrived on");
+	}
+	__CPROVER_assert(PRIV_UNCHANGED(s0) && g_answers == 0 && g_tun_writes == 0, "forwarding touches no session");
+	VERIF_REACH();
+}
+
+/* ---- tunnel_bind (C20): relay the reply to the remembered asker, drop it when nobody asked ---------------------- */
+void h_tunnel_bind(void)
+{
+	any_server_state();
+	int bind_fd = nondet_int();
+	struct dnsfd fds = { nondet_int(), nondet_int() };
+	g_recv_ret = nondet_int(); g_gid_ret = (unsigned short)nondet_int(); g_get_hit = nondet_bool();
+	__CPROVER_havoc_object(&g_fw_entry);
+	__CPROVER_assume(g_fw_entry.addrlen >= 0 && g_fw_entry.addrlen <= (int)sizeof(struct sockaddr_storage));
+	g_gid_calls = g_get_calls = 0;
+	struct snap s0 = take_snap();
+	int r = tunnel_bind(bind_fd, &fds);
+	__CPROVER_assert(r == 0, "result 0");
+	__CPROVER_assert(g_recv_ret > 0 || g_sendto == 0, "nothing received, nothing relayed");
+	if (g_recv_ret > 0) {
+		__CPROVER_assert(g_gid_calls == 1 && g_gid_pkt == g_recv_buf && g_gid_len == (size_t)g_recv_ret, "the id is taken from the received reply (its own length)");
+		__CPROVER_assert(g_get_calls == 1 && g_get_id == g_gid_ret, "the ring is asked for exactly that id");
+		__CPROVER_assert(g_get_hit || g_sendto == 0, "a reply whose id matches no remembered query is sent to nobody");
+		__CPROVER_assert(!g_get_hit || (g_sendto == 1 && g_sent_buf == g_recv_buf && g_sent_len == (size_t)g_recv_ret && g_sent_to == (const void *)&g_fw_entry.addr && g_sent_tolen == (socklen_t)g_fw_entry.addrlen), "a matching reply is relayed unchanged (same bytes, same length), once, to the remembered address");
+		__CPROVER_assert(!g_get_hit || g_sent_fd == (g_fw_entry.addr.ss_family == AF_INET6 ? fds.v6fd : fds.v4fd), "on the socket of the asker's address family");
+	}
+	__CPROVER_assert(PRIV_UNCHANGED(s0) && g_answers == 0 && g_tun_writes == 0, "relaying touches no session");
+	VERIF_REACH();
+}
+
+/* ---- handle_ns_request / handle_a_request (C10): auxiliary answers -------------------------------------------------- */
+void h_ns_a_request(void)
+{
+	any_server_state();
+	int off = nondet_int(), fake = nondet_int();
+	__CPROVER_assume(off >= 0 && off <= 255);            /* tunnel_dns passes the matcher's result (0..strlen) */
+	ns_ip = (in_addr_t)nondet_unsigned();
+	g_enc_ret = nondet_int(); g_enc_calls = 0;
+	__CPROVER_assume(g_q.dest_len <= sizeof(struct sockaddr_storage));
+	struct sockaddr_storage dest0 = g_q.destination;
+	struct snap s0 = take_snap();
+	_Bool ns = nondet_bool();
+	if (ns) {
+		handle_ns_request(8, &g_q, off);
+		__CPROVER_assert(g_enc_calls == 1 && g_enc_q == &g_q && g_nsr_domain == g_q.name + off, "the NS answer is built for the received query with the matched domain part of its own name");
+		__CPROVER_assert(ns_ip == INADDR_ANY ? g_q.destination.ss_family == dest0.ss_family : (g_q.destination.ss_family == AF_INET && ((struct sockaddr_in *)&g_q.destination)->sin_addr.s_addr == ns_ip), "the glue address is the configured one, else the address the query was sent to");
+	} else {
+		handle_a_request(8, &g_q, fake);
+		_Bool have4 = fake || ns_ip != INADDR_ANY || dest0.ss_family == AF_INET;
+		__CPROVER_assert(g_enc_calls == have4, "an address answer is built exactly when an IPv4 address is known");
+		__CPROVER_assert(!fake || ((struct sockaddr_in *)&g_q.destination)->sin_addr.s_addr == htonl(0x7f000001u), "www.<domain> is answered with the placeholder address");
+		__CPROVER_assert(fake || ns_ip == INADDR_ANY || ((struct sockaddr_in *)&g_q.destination)->sin_addr.s_addr == ns_ip, "ns.<domain> is answered with the configured address");
+		__CPROVER_assert(!g_enc_calls || g_q.destination.ss_family == AF_INET, "the address record carries an IPv4 address");
+	}
+	__CPROVER_assert(g_sendto == (g_enc_calls == 1 && g_enc_ret >= 1), "one datagram when the answer could be built, none otherwise");
+	__CPROVER_assert(!g_sendto || (g_sent_fd == 8 && g_sent_buf == g_enc_buf && g_sent_len == (size_t)g_enc_ret && g_sent_to == (const void *)&g_q.from && g_sent_tolen == g_q.fromlen), "exactly the built message goes back to the asker");
+	__CPROVER_assert(PRIV_UNCHANGED(s0) && g_answers == 0 && g_tun_writes == 0, "auxiliary answers touch no session");
 	VERIF_REACH();
 }
 #endif
